@@ -30,8 +30,9 @@ let punct_text = function
   | PLPar -> "(" | PRPar -> ")" | PLBrk -> "[" | PRBrk -> "]" | PLBrc -> "{" | PRBrc -> "}"
   | PDot -> "." | PSemi -> ";" | PComma -> "," | PColon -> ":" | PQuest -> "?" | PAssign -> "=" | PPlusEq -> "+="
   | PPlusPlus -> "++" | PBang -> "!" | PMinus -> "-" | PBin s -> string_of_bstr s
-let tok_text = function
+let rec tok_text = function
   | TId s -> string_of_bstr s | TKw (_, s) -> string_of_bstr s | TNum s -> string_of_bstr s | TStr -> "'s'" | TP p -> punct_text p
+  | TNL t -> "\n" ^ tok_text t
 let alphabet : jstoken list =
   let id s = tok_of_ident (bstr_of_string s) in
   List.map id ["a"; "b"; "c"; "opt_data"; "opt_sb"; "opt_ijData"; "from"; "soy"; "$$f"; "x_1"; "of"; "get"; "async"; "undefined"]
@@ -64,7 +65,7 @@ let random_program (m : bool) (seed : int) (steps : int) : string option =
         (match first md stk cands with
          | None -> None
          | Some (t, md', stk') ->
-             (* no line break before a postfix ++ (a restricted production; lex_bytes refuses it) *)
+             (* no line break before a postfix ++ (a restricted production: lex_bytes flags the token, js_step refuses it) *)
              if i > 0 then Buffer.add_char buf (if t <> TP PPlusPlus && rnd 8 = 0 then '\n' else ' ');
              Buffer.add_string buf (tok_text t); go md' stk' (i + 1)) in
   go (MStmt false) [] 0
